@@ -203,6 +203,20 @@ def _work(item) -> Dict[str, Any]:
     if (consts['lags'], consts['leads']) != (Model.LAGS, Model.LEADS):
         out['bad'].append({'what': f"Fortran lags/leads {(consts['lags'], consts['leads'])} != Python LAGS/LEADS {(Model.LAGS, Model.LEADS)}", 'replayed': True,
                            'class': 'lags-leads', 'replay': {'text': text}})
+    # the lags / leads / min_lags / min_leads option lattice must give the same lag and lead lengths on both back-ends
+    # (concrete assertion; the feasibility guard of the IR is then decided symbolically against these constants below)
+    for opts in ({'lags': 1, 'min_lags': 2}, {'leads': 0, 'min_leads': 3}, {'min_lags': 2, 'min_leads': 1}, {'lags': 3, 'leads': 2},
+                 {'lags': 0}, {'leads': 0, 'min_lags': 4}):
+        try:
+            M2 = fsic.build_model(symbols, **opts)
+            h2 = _header_ints(ffortran.build_fortran_definition(symbols, **opts))
+        except Exception as e:  # noqa: BLE001
+            out['bad'].append({'what': f'options {opts}: {type(e).__name__}: {e}', 'replayed': True, 'class': 'options', 'replay': {'text': text}})
+            continue
+        if (h2['lags'], h2['leads']) != (M2.LAGS, M2.LEADS):
+            out['bad'].append({'what': f"options {opts}: Fortran lags/leads {(h2['lags'], h2['leads'])} != Python LAGS/LEADS {(M2.LAGS, M2.LEADS)}",
+                               'replayed': True, 'class': 'lags-leads-options', 'replay': {'text': text, 'options': opts}})
+            break
     sv.CANON[0] = True
     _install_python_side()
     try:
